@@ -1,6 +1,6 @@
 """CAP: relational bounds / representation-invariant checker.
 
-A path-forking symbolic interpreter over the structured statement tree.  Integers are linear expressions over
+A path-sensitive abstract interpreter (trace partitioning, loops summarised by inferred invariants) over the structured statement tree.  Integers are linear expressions over
 symbols, pointers are (region, byte offset) pairs, regions carry a symbolic capacity (and, for C strings, a
 symbolic length).  Path conditions are conjunctions of linear inequalities decided by Fourier-Motzkin
 elimination (la/lin.py).  Loops are summarised by havoc + candidate invariants kept only when inductive
